@@ -315,14 +315,15 @@ Proof.
   - destruct (IH _ _ Hz) as (u & Hu & ->). exists u. split; [lia|reflexivity].
 Qed.
 
-Lemma runs_step_bound lc c s o c' s' x y :
+Lemma runs_step_bound lc c s k o c' s' x y :
   nth_error lc (fst o) = Some x -> nth_error lc (snd o) = Some y -> 0 <= x -> 0 <= y -> x + y < 2 ^ 64 ->
-  runs_step lc (c, s) o = Ok (c', s') ->
+  runs_step lc (c, s) k o = Ok (c', s') ->
   forall z, In z c' -> In z c \/ z <= 2 ^ (x + y) - 1.
 Proof.
   intros Ex Ey Hx Hy Hsmall. unfold runs_step. rewrite Ex, Ey.
+  destruct (nth_error lc (S k)) as [zk|]; [|discriminate].
   destruct (min_max x y) as [a b] eqn:Emm. rewrite min_max_spec in Emm. injection Emm as <- <-.
-  destruct (negb (is_uint64 (Z.min x y)) || negb (is_uint64 (Z.max x y))); [discriminate|].
+  destruct (negb (is_uint64 zk)); [discriminate|].
   intros H. injection H as <- _. intros z Hz.
   set (la := Z.to_N (Z.min x y)) in *. set (lb := Z.to_N (Z.max x y)) in *.
   assert (Hsum : Z.of_N la + Z.of_N lb = x + y) by (unfold la, lb; rewrite !Z2N.id by lia; lia).
@@ -339,18 +340,18 @@ Proof.
     + apply N2Z.inj_lt. rewrite N2Z.inj_add, Hsum, N2Z.inj_pow. exact Hsmall.
 Qed.
 
-Lemma runs_loop_bound lc (B : Z -> Prop) : forall p c s c',
+Lemma runs_loop_bound lc (B : Z -> Prop) : forall p k c s c',
   (forall o, In o p -> exists x y, nth_error lc (fst o) = Some x /\ nth_error lc (snd o) = Some y /\
                                    0 <= x /\ 0 <= y /\ x + y < 2 ^ 64 /\ forall z, z <= 2 ^ (x + y) - 1 -> B z) ->
   (forall z, In z c -> B z) ->
-  runs_loop lc p (c, s) = Ok c' -> forall z, In z c' -> B z.
+  runs_loop lc p k (c, s) = Ok c' -> forall z, In z c' -> B z.
 Proof.
-  induction p as [|o p IH]; intros c s c' Hp Hc H; cbn [runs_loop] in H.
+  induction p as [|o p IH]; intros k c s c' Hp Hc H; cbn [runs_loop] in H.
   - injection H as <-. exact Hc.
-  - destruct (runs_step lc (c, s) o) as [[c1 s1]| | |] eqn:E1; try discriminate. cbn [obind] in H.
+  - destruct (runs_step lc (c, s) k o) as [[c1 s1]| | |] eqn:E1; try discriminate. cbn [obind] in H.
     destruct (Hp o (or_introl eq_refl)) as (x & y & Ex & Ey & Hx & Hy & Hs & HB).
-    apply (IH c1 s1 c'); [intros o' Ho'; apply Hp; now right| |exact H].
-    intros z Hz. destruct (runs_step_bound lc c s o c1 s1 x y Ex Ey Hx Hy Hs E1 z Hz) as [Hin|Hle]; auto.
+    apply (IH (S k) c1 s1 c'); [intros o' Ho'; apply Hp; now right| |exact H].
+    intros z Hz. destruct (runs_step_bound lc c s k o c1 s1 x y Ex Ey Hx Hy Hs E1 z Hz) as [Hin|Hle]; auto.
 Qed.
 
 Theorem runs_chain_bound lc c : is_chain lc -> (forall l, In l lc -> l < 2 ^ 64) -> runs_chain lc = Ok c ->
@@ -359,7 +360,7 @@ Proof.
   intros Hc Hsmall H. unfold runs_chain in H. destruct (program lc) as [p| | |] eqn:Ep; try discriminate.
   cbn [obind] in H. destruct (program_ops lc p Ep) as [Hlen Hops].
   pose proof (fun x => chain_pos lc x Hc) as Hpos.
-  apply (runs_loop_bound lc (fun z => exists l, In l lc /\ z <= 2 ^ l - 1) p [1] [] c); [| |exact H].
+  apply (runs_loop_bound lc (fun z => exists l, In l lc /\ z <= 2 ^ l - 1) p 0%nat [1] [] c); [| |exact H].
   - intros [i j] Ho. apply In_nth_error in Ho. destruct Ho as [k Hk]. destruct (Hops k i j Hk) as [Hij Hs].
     assert (Hklt : (k < length p)%nat).
     { destruct (Nat.lt_ge_cases k (length p)) as [|Hge]; [assumption|].
